@@ -79,6 +79,12 @@ def run_case(c):
         out["rec"] = [{"t": float(t), "x": [[float(v) for v in row] for row in X]} for t, X in zip(m._recordedTime, m._recordedX)]
         out["t"] = float(m.t)
         out["x"] = [[float(v) for v in row] for row in m.x]
+        out["mesh"] = []
+        import io, contextlib
+        for tq in c.get("meshtimes", []):
+            with contextlib.redirect_stdout(io.StringIO()):
+                m.setMeshtoRecordedTime(float(tq))
+            out["mesh"].append([[float(v) for v in row] for row in m.x])
     except Exception as ex:  # noqa
         out["err"] = type(ex).__name__
         out["msg"] = str(ex)[:200]
@@ -97,7 +103,7 @@ def to_json(c):
             "minc": rat(c["minc"]), "threshold": rat(c["threshold"]), "iter": c["iter"],
             "A": [[rat(v) for v in r] for r in c["A"]], "B": [[rat(v) for v in r] for r in c["B"]],
             "tfield": c["tfield"], "tswitch": rat(c.get("tswitch", 0)), "calls": [rat(s) for s in c["calls"]],
-            "mindt": rat(c["mindt"]), "fuel": c["fuel"]}
+            "mindt": rat(c["mindt"]), "fuel": c["fuel"], "meshtimes": [rat(t) for t in c.get("meshtimes", [])]}
 
 
 def gen_cases(rng, tier):
@@ -153,7 +159,9 @@ def gen_cases(rng, tier):
             calls = [dt0 * rng.choice([1, Fr(3, 2), 2]) for _ in range(rng.randint(1, 3))]
             while sum(-(-c // dt0) for c in calls) > 4:
                 calls.pop()
-        cases.append(dict(N=N, E=E, z0=z0, z1=z1, build=build, bc=bc, minc=Fr(1, 256), threshold=threshold,
+        total = sum(calls)
+        meshtimes = [Fr(-1), Fr(0), dt0 / 2, dt0, dt0 * Fr(5, 4), total, total + 1]
+        cases.append(dict(meshtimes=meshtimes, N=N, E=E, z0=z0, z1=z1, build=build, bc=bc, minc=Fr(1, 256), threshold=threshold,
                           iter=it, A=A, B=B, tfield=tfield, tswitch=calls[0] * Fr(3, 4), calls=calls, mindt=Fr(1, 2 ** 10), fuel=12,
                           cache=rng.random() < 0.3 and all(v == 0 for r in B for v in r)))
     return cases
